@@ -369,6 +369,13 @@ func (pm *Portmapper) handleCall(data []byte, remoteAddr net.Addr) ([]byte, erro
 	// rpcbind v3/v4 procedures are different from portmap v2
 	// v2: 0=NULL, 1=SET, 2=UNSET, 3=GETPORT, 4=DUMP
 	// v3/v4: 0=NULL, 1=SET, 2=UNSET, 3=GETADDR, 4=DUMP, 5=CALLIT
+	// SET and UNSET (procedures 1 and 2 in portmap v2 and in rpcbind v3/v4)
+	// change the registry: only loopback callers may use them, and an address
+	// that cannot be shown to be loopback is refused.
+	if (procedure == PMAPPROC_SET || procedure == PMAPPROC_UNSET) && !portmapCallerIsLocal(remoteAddr) {
+		return pm.makeReply(xid, MSG_ACCEPTED, pm.encodeBool(false)), nil
+	}
+
 	var result []byte
 	if version == 2 {
 		// Portmap v2 procedures
@@ -405,6 +412,22 @@ func (pm *Portmapper) handleCall(data []byte, remoteAddr net.Addr) ([]byte, erro
 	}
 
 	return pm.makeReply(xid, MSG_ACCEPTED, result), nil
+}
+
+// portmapCallerIsLocal reports whether a call comes from a loopback address.
+// A nil address is an in-process caller. A host that does not parse as an IP
+// address (including zone-qualified link-local IPv6 such as fe80::1%eth0) is
+// not loopback.
+func portmapCallerIsLocal(remoteAddr net.Addr) bool {
+	if remoteAddr == nil {
+		return true
+	}
+	host, _, err := net.SplitHostPort(remoteAddr.String())
+	if err != nil {
+		host = remoteAddr.String()
+	}
+	ip := net.ParseIP(host)
+	return ip != nil && ip.IsLoopback()
 }
 
 func (pm *Portmapper) skipAuth(r io.Reader) error {
